@@ -67,7 +67,7 @@ func (x *executor) args(op Op) *mgmt.ControlArgs {
 
 // build encodes the Interest of op. match is the name the answer must carry (exactly for
 // commands, as a prefix for datasets).
-func (x *executor) build(op Op, idx int) (wire []byte, match enc.Name, err error) {
+func (x *executor) build(op Op, idx int) (wire []byte, match enc.Name, comp []byte, err error) {
 	x.nonce++
 	icfg := &ndn.InterestConfig{Lifetime: utils.IdPtr(time.Second), Nonce: utils.IdPtr(0x5eed0000 + x.nonce), MustBeFresh: op.Fresh}
 	name := mkName(op.Pfx)
@@ -115,13 +115,14 @@ func (x *executor) build(op Op, idx int) (wire []byte, match enc.Name, err error
 				val = val[:1]
 			}
 		default:
-			return nil, nil, fmt.Errorf("unknown form %q", op.Form)
+			return nil, nil, nil, fmt.Errorf("unknown form %q", op.Form)
 		}
+		comp = val
 		name = append(name, enc.NewBytesComponent(enc.TypeGenericNameComponent, val), uniq)
 		it, err = spec.Spec{}.MakeInterest(name, icfg, nil, nil)
 	}
 	if err != nil {
-		return nil, nil, err
+		return nil, nil, nil, err
 	}
 	if match == nil {
 		match = it.FinalName
@@ -133,7 +134,7 @@ func (x *executor) build(op Op, idx int) (wire []byte, match enc.Name, err error
 		e.Init(pkt)
 		wire = e.Encode(pkt).Join()
 	}
-	return wire, match, nil
+	return wire, match, comp, nil
 }
 
 // ---------------------------------------------------------------------------- answers
@@ -678,12 +679,20 @@ func (x *executor) probeInterest(name string, idx int) {
 
 func (x *executor) step(idx int, op Op) error {
 	x.r.drainAll()
-	exp := x.m.expect(op, faceSpecs[op.Face].scope == defn.Local)
-	x.class(exp.class)
-	wire, match, err := x.build(op, idx)
+	wire, match, comp, err := x.build(op, idx)
 	if err != nil {
 		// the library refused to encode this command: nothing to send
 		x.counts["not-encodable"]++
+		return nil
+	}
+	op.overrun = outerOverrun(comp)
+	exp := x.m.expect(op, faceSpecs[op.Face].scope == defn.Local)
+	x.class(exp.class)
+	if exp.known {
+		x.counts["tolerated-known-finding:"+knownOverrun]++
+	}
+	if exp.skip {
+		x.counts["skipped-commands"]++
 		return nil
 	}
 	x.csBefore = 0
@@ -734,6 +743,12 @@ func (x *executor) step(idx int, op Op) error {
 			return fmt.Errorf("%s: answered %v, expected 200", desc, ans)
 		}
 		if accepted {
+			if op.Pfx == pfxLocalhop {
+				x.class("accepted-under-localhop-prefix")
+				if faceSpecs[op.Face].scope != defn.Local {
+					x.class("accepted-under-localhop-prefix-from-nonlocal-face")
+				}
+			}
 			if exp.kind == expEither {
 				x.class(exp.class + "->200")
 			}
@@ -815,6 +830,9 @@ func runCase(c Case) (res evid.Result) {
 	x := &executor{r: r, m: newModel(r), signer: sec.NewSha256IntSigner(basic.NewTimer()),
 		classes: map[string]bool{}, counts: map[string]int{}}
 	finish := func(err error) evid.Result {
+		if r.unnumbered > 0 {
+			x.counts["fragments-without-index-and-count(C10)"] += r.unnumbered
+		}
 		res := evid.Result{Err: err, Counts: x.counts}
 		for _, k := range sortedKeys(x.classes) {
 			res.Classes = append(res.Classes, k)
@@ -855,4 +873,40 @@ func TestC17MgmtReplay(t *testing.T) {
 
 func TestC17MgmtRegress(t *testing.T) {
 	evid.Regress(t, "C17", "TestC17Mgmt", execC17(t))
+}
+
+// TestC17KnownOverrun re-confirms the listed known finding with a fixed case, judged
+// strictly (a ControlParameters TLV whose length overruns the component must be refused).
+func TestC17KnownOverrun(t *testing.T) {
+	if !evid.Known("C17", knownOverrun) {
+		t.Skip("not listed as a known finding")
+	}
+	rec := evid.New("C17", "TestC17KnownOverrun", "fixed cases re-confirming the known finding "+knownOverrun+" under the strict oracle")
+	strictOverrun = true
+	defer func() { strictOverrun = false }()
+	cases := []Case{
+		{Threads: 1, Fib: "nametree", CsCap: 64, Ops: []Op{{Face: 0, Pfx: pfxLocal, Mod: "cs", Verb: "config", Form: "garbage", Raw: []byte{0x68, 0x05, 0x07}}}},
+		{Threads: 1, Fib: "hashtable", CsCap: 64, Ops: []Op{{Face: 0, Pfx: pfxLocal, Mod: "faces", Verb: "update", Form: "garbage",
+			Raw: []byte{0x68, 0xff, 0xff, 0xff, 0xff, 0xff, 0xff, 0xff, 0xff, 0xff}}}},
+	}
+	confirmed := 0
+	run := execC17(t)
+	evid.Each(t, rec, cases, func(c Case) evid.Result {
+		res := run(c)
+		out := evid.Result{NonTrivial: true}
+		if res.Err != nil && strings.Contains(res.Err.Error(), "a 4xx status is required") {
+			confirmed++
+			out.Classes = []string{"known-finding-reconfirmed"}
+		} else if res.Err != nil {
+			out.Err = res.Err // some other violation: must not be hidden
+		} else {
+			out.Classes = []string{"known-finding-not-reproduced"}
+		}
+		return out
+	})
+	if confirmed > 0 {
+		evid.ReportKnown("C17", knownOverrun)
+	} else {
+		t.Logf("the known finding %s does not reproduce any more: its entry can be turned into status fixed", knownOverrun)
+	}
 }
